@@ -338,7 +338,7 @@ MX_TEXT = st.builds(lambda a, m, z: (a + m + z).strip() or "x", st.sampled_from(
 def _cfg(text, **kw):
     base = dict(groups=SG.plain_groups(bases=ALLB, max_dots=4, tuplet_bases=ALLB), meters=METERS, octaves=list(range(0, 9)), max_pitch=200,
                 min_pitch=-20, max_bars=3, max_groups=6, max_tracks=3, text=text, partial_last=True, rest_p=4, empty_containers=True,
-                instruments=["none", "generic", "midi"], twin_p=4)
+                instruments=["none", "generic", "midi"], twin_p=4, share_instruments=True)
     base.update(kw)
     return SG.Cfg(**base)
 
